@@ -212,7 +212,23 @@ func (fc *FuncCtx) selectOp(fr *Frame, st *State, x *ssa.Select, idx string) {
 		fc.u.Obls = append(fc.u.Obls, o)
 		return
 	}
-	fc.underLock(fr, st, "a blocking select", x.Pos())
+	abandon := false
+	for _, l := range strings.Split(fr.con.Flags["lock-free-abandon"], ",") {
+		for _, s := range x.States {
+			if l != "" && s.Dir == types.RecvOnly && chanNamed(s.Chan, l) {
+				abandon = true
+			}
+		}
+	}
+	if abandon && len(st.heldLocks) > 0 {
+		// B2 exception: the select may wait while a lock is held because one of its cases receives from a lifetime
+		// channel whose closer does not need that lock (asserted in the closer's own contract)
+		o := &Obligation{Name: fmt.Sprintf("%s/block.under-lock#%d", fr.prefix, fc.nextOrd(fr.prefix+"/block.under-lock")), Kind: "block.under-lock", Func: fr.prefix, Pos: fc.posStr(x.Pos()), Goal: "true", PC: st.pc, Unit: fc.u, Props: fc.props, Structural: true, StructOK: true, Note: "abandoned through " + fr.con.Flags["lock-free-abandon"], Desc: "blocking select under a lock has a case on a lifetime channel that is closed without that lock (B2 exception)"}
+		fc.u.Obls = append(fc.u.Obls, o)
+		fc.u.Assumptions["B2 exception in "+fr.prefix+": the closer of "+fr.con.Flags["lock-free-abandon"]+" does not need the lock held here (asserted at its close site in the closer's contract)"] = true
+	} else {
+		fc.underLock(fr, st, "a blocking select", x.Pos())
+	}
 	// B1 (a): structural — one case receives from a timer or a lifetime channel named in the contract
 	ok := false
 	life := strings.Split(fr.con.Flags["lifetime"], ",")
